@@ -434,6 +434,34 @@ def run_klong_kvs(ctx, drv, nseq, length):
 
 # --------------------------------------------------------------------------- table store
 
+def run_tables_pending_inserts(ctx):
+    """a table that still holds UNREAD inserts is stored with them: `.insert(t;row)` then `ts,"k",,t` with no read
+    of the table in between; what the store returns (same store object, and one opened on the same directory
+    afterwards) holds every inserted row"""
+    from klongpy import KlongInterpreter
+    root = ctx.mkdtemp()
+    klong = KlongInterpreter()
+    prog = ['.py("klongpy.db")', f'ts::.tables("{root}")',
+            'T::.table([["a" [1 2]] ["b" [10 20]]])', '.insert(T;[3 30])', 'ts,"t/p",,T',
+            'U::.table([["a" [5]] ["b" [50]]])', '.insert(U;[6 60])', '.insert(U;[7 70])', 'ts,"u",,U']
+    case = dict(kind="tables-pending-insert", program=prog)
+    try:
+        for st in prog:
+            klong(st)
+        for key, want in (("t/p", [[1, 10], [2, 20], [3, 30]]), ("u", [[5, 50], [6, 60], [7, 70]])):
+            for label, text in (("same store", f'ts?"{key}"'), ("reopened store", f'ts2::.tables("{root}");ts2?"{key}"')):
+                tbl = klong(text)
+                got = [[int(x) for x in r] for r in tbl.get_dataframe().values.tolist()]
+                ctx.count(("tables-pending", key, label), nontrivial=True)
+                ctx.bump("tables:pending-insert")
+                if got != want:
+                    ctx.oracle_fail("tables:set-with-pending-inserts", dict(case, read=label, key=key), repr(want), repr(got))
+    except Exception as e:
+        ctx.oracle_fail(f"tables:pending:raises:{type(e).__name__}", case, "the program runs", repr(e))
+    finally:
+        shutil.rmtree(root, ignore_errors=True)
+
+
 def run_tables(ctx, drv, nseq):
     """ts,key,table merges: existing rows win on equal index, result sorted by index"""
     import pandas as pd
@@ -568,6 +596,7 @@ def run(ctx):
             run_cache_sequence(ctx, ops, maxmem, drv, "fcache")
         run_kvs_value_independence(ctx)
         run_klong_kvs(ctx, drv, 80 if quick else 500, 12 if quick else 40)
+        run_tables_pending_inserts(ctx)
         run_tables(ctx, drv, 80 if quick else 500)
     finally:
         if drv:
